@@ -1,5 +1,17 @@
 package gmars
 
+import "sort"
+
+// sortedKeys returns the keys of m in increasing order
+func sortedKeys[V any](m map[string]V) []string {
+	keys := make([]string, 0, len(m))
+	for key := range m {
+		keys = append(keys, key)
+	}
+	sort.Strings(keys)
+	return keys
+}
+
 // buildReferenceGraph takes a map of expressions and builds a graph of
 // symbol references as a map[string][]token
 func buildReferenceGraph(values map[string][]token) map[string][]string {
@@ -63,7 +75,8 @@ func nodeContainsCycle(node string, graph map[string][]string, onPath map[string
 func graphContainsCycle(graph map[string][]string) (bool, string) {
 	done := make(map[string]bool)
 	onPath := make(map[string]bool)
-	for key := range graph {
+	// in sorted order, so that the same input always reports the same symbol
+	for _, key := range sortedKeys(graph) {
 		nodeCycle, cycleKey := nodeContainsCycle(key, graph, onPath, done)
 		if nodeCycle {
 			return true, cycleKey
